@@ -516,9 +516,14 @@ Definition range_refs_of_cu (S : sections) (ver5 : bool) (cv : cuview) : res (li
          (flat_map (fun d => match vdie_get d "DW_AT_ranges" with Some fv => [fv] | None => [] end) dies)
   else Ok [].
 
-Definition range_cu_map (S : sections) (ver5 : bool) (cus : list cuview) : res (dict Z cuview) :=
+(* the (key, value) pairs of the comprehension, in iteration order *)
+Definition range_refs (S : sections) (ver5 : bool) (cus : list cuview) : res (list (Z * cuview)) :=
   do refs <- mapM (range_refs_of_cu S ver5) cus;
-  Ok (dict_of_list Z.eqb (concat refs)).
+  Ok (concat refs).
+
+Definition range_cu_map (S : sections) (ver5 : bool) (cus : list cuview) : res (dict Z cuview) :=
+  do refs <- range_refs S ver5 cus;
+  Ok (dict_of_list Z.eqb refs).
 
 Definition iter_range_lists (T : entry_tables) (S : sections) (version : Z) (stream : list Z)
     (cus : list cuview) : res (list (list tup)) :=
